@@ -21,6 +21,8 @@ def select(t, c):
         if name == "partition-constraints-accumulate-over-solves":
             return "C13|%s" % name, "solve %d sends %s more partition constraints than solve %d of the same model" % (step, detail, step - 1)
         return "C13|%s|%s" % (name, cls), "solve %d: %s (detail %s)" % (step, name, detail)
+    if o["edit"] == "fresh-twin":
+        return None
     if step >= 2 and prop == "C02":
         base = name.split(":")[0]
         if base.startswith("derived-") or base in ("constraint-value-differs-from-its-expression",
@@ -42,8 +44,16 @@ def want(p):
     return len(p["solves"]) >= 2
 
 
+def fresh_twin(p):
+    """append the newly built equivalent model (same program, all edits applied before its only solve)"""
+    last = dict(p["solves"][-1])
+    if last["heur"] != "none":
+        return p
+    return dict(prog=p["prog"], solves=list(p["solves"]) + [dict(last, edit="fresh-twin")])
+
+
 def run(tier):
-    return sc.run_family(PID, tier, RULE, select, want=want, cap=dict(quick=400, thorough=4000))
+    return sc.run_family(PID, tier, RULE, select, want=want, cap=dict(quick=400, thorough=4000), transform=fresh_twin)
 
 
 def replay(path):
